@@ -4050,6 +4050,10 @@ def main():
     f3text, f3problems = generate_fsm3()
     write_if_changed(FSM3_OUT, f3text, "GeneratedFsm3.v")
     mproblems = mproblems + iproblems + wproblems + fproblems + f2problems + f3problems
+    import c2v_mgr                      # rtr_mgr.c decision logic (own module: tools/c2v_mgr.py)
+    gtext, gproblems = c2v_mgr.generate_mgr()
+    write_if_changed(c2v_mgr.MGR_OUT, gtext, "GeneratedMgr.v")
+    mproblems = mproblems + gproblems
     for p in problems + sproblems + mproblems:
         print("c2v: problem:", p)
     return 0
